@@ -10,6 +10,7 @@ package sqlc_model
 // database: the error result of every method is unconstrained.
 //   dbAddN / dbDelN / dbClaimN    number of AddURL / DeleteURL / ClaimThisURL calls so far
 //   dbAddID .. dbAddHops         the row offered by the last AddURL call
+//   dbAddFailed, dbAddErrText   whether the last AddURL call returned an error, and its text
 //   dbDelID, dbClaimID           the id given to the last DeleteURL / ClaimThisURL call
 //   dbFreshLimit               the limit given to the last GetFreshURLs call
 //   dbFreshArr, dbFreshLen       the slice returned by the last GetFreshURLs call
@@ -18,6 +19,8 @@ package sqlc_model
 //@ ghost var dbAddValue string
 //@ ghost var dbAddVia string
 //@ ghost var dbAddHops int64
+//@ ghost var dbAddFailed bool
+//@ ghost var dbAddErrText string
 //@ ghost var dbDelN int
 //@ ghost var dbDelID string
 //@ ghost var dbClaimN int
@@ -30,6 +33,8 @@ package sqlc_model
 //@ pure nClaims() int = dbClaimN
 //@ pred lastAdd(value string, via string, hops int64) = dbAddValue == value && dbAddVia == via && dbAddHops == hops
 //@ pure lastAddID() string = dbAddID
+//@ pure lastAddFailed() bool = dbAddFailed
+//@ pure lastAddErrText() string = dbAddErrText
 //@ pure lastDeleteID() string = dbDelID
 //@ pure lastClaimID() string = dbClaimID
 //@ pure lastFreshLimit() int64 = dbFreshLimit
@@ -37,8 +42,9 @@ package sqlc_model
 
 //@ func (*Queries).AddURL
 //@   opaque
-//@   modifies dbAddN, dbAddID, dbAddValue, dbAddVia, dbAddHops
+//@   modifies dbAddN, dbAddID, dbAddValue, dbAddVia, dbAddHops, dbAddFailed, dbAddErrText
 //@   ensures dbAddN == old(dbAddN) + 1 && dbAddID == arg.ID && dbAddValue == arg.Value && dbAddVia == arg.Via && dbAddHops == arg.Hops
+//@   ensures dbAddFailed == (result != nil) && (result != nil ==> dbAddErrText == result.Error())
 
 //@ func (*Queries).DeleteURL
 //@   opaque
